@@ -300,6 +300,18 @@ func forgetProgram(prog *ssa.Program) {
 		return true
 	})
 	worldByProg.Delete(prog)
+	allocEscapeMemo.Range(func(k, v interface{}) bool {
+		if a, ok := k.(*ssa.Alloc); ok && a.Parent() != nil && a.Parent().Prog == prog {
+			allocEscapeMemo.Delete(k)
+		}
+		return true
+	})
+	errPredCache.Range(func(k, v interface{}) bool {
+		if ek, ok := k.(errPredKey); ok && ek.fn != nil && ek.fn.Prog == prog {
+			errPredCache.Delete(k)
+		}
+		return true
+	})
 	loopBodyCache.Range(func(k, v interface{}) bool {
 		if b, ok := k.(*ssa.BasicBlock); ok && b.Parent() != nil && b.Parent().Prog == prog {
 			loopBodyCache.Delete(k)
